@@ -224,7 +224,7 @@ def run_daemon(desc):
             n = notif[0]
             res.violation(f'C02/daemon:refuses-wellformed:{n[0]}/{n[1]}', f'the daemon answered a well-formed UPDATE stream with NOTIFICATION {n[0]}/{n[1]} {bytes(n[2:])[:80]!r}', {'session': sk['name'], 'bodies': [b.hex() for b, _ in sent][-5:]}, 'daemon')
         else:
-            res.inconclusive.append('daemon: ' + str(e)[:400])
+            daemon.skipped(res, str(e))
         return res
     finally:
         try:
